@@ -23,11 +23,13 @@ from vcore import Failure
 
 PROP = "C04"
 RULE = (
-    "two families, distinct by canonical hash: (1) structure — sheets of question/group/repeat rows of every simple type of the "
-    "regenerated type table, selects (+or_other spellings), count helpers, externals inside repeats, disabled/blank rows, depth to "
-    "5 (quick) / 8 (thorough); (2) attributes — every parameterised type x appearance x body::x/rows/autoplay columns x valid and "
-    "(15% of sheets) invalid parameter cells x label/hint/neither/media x calculation x trigger, groups/repeats with "
-    "appearance/intent/body::x/jr:count, unlabelled sections of invisible rows, empty sections; non-trivial = accepted and "
+    "two streams, distinct by canonical hash: (1) structure — sheets of question/group/repeat rows of every simple type of the "
+    "regenerated type table, selects (+or_other spellings), count helpers, externals inside repeats, blank rows, depth to 5 (quick) / "
+    "8 (thorough); (2) attributes — every parameterised type x appearance x body::x/rows/autoplay columns x valid and (15% of sheets) "
+    "invalid parameter cells x label/hint/neither/media x calculation x trigger, groups/repeats with appearance/intent/body::x and "
+    "count cells of all shapes (constant, expression, bare reference, reference-prefixed expression, function call), table-list "
+    "groups, unlabelled sections of invisible rows, empty sections; on 25-35% of the sheets rows marked disabled of every kind "
+    "(questions, selects, audit, begin/end, rows that would be rejected) and falsy marks on active rows; non-trivial = accepted and "
     "containing a group/repeat or a control with attributes"
 )
 
@@ -138,23 +140,26 @@ ALL_SIMPLE = None
 def explore(ctx, factor, bs):
     rng = ctx.rng
     n = ctx.pick(1000, 20000) * factor
-    import gen
+    import controls_gen
     for i in range(n):
         form = formcommon.structure_form(rng, tier_big=not ctx.quick(), external_in_repeat=True)
-        # layout noise that must vanish: blank rows, disabled rows
-        if rng.random() < 0.3:
+        # layout noise that must vanish: blank rows, rows marked disabled (of every kind)
+        if rng.random() < 0.35:
             rows = []
             for row in form["survey"]:
                 if rng.random() < 0.15:
                     rows.append({})
-                if rng.random() < 0.1 and not row.get("type", "").startswith(("begin", "end")):
-                    rows.append({"type": "text", "name": "dis" + str(len(rows)), "label": "x", "disabled": rng.choice(["yes", "true", "TRUE"])})
                 rows.append(row)
             form["survey"] = rows
+            form = controls_gen.disabled_noise(rng, form)
+            ctx.count("disabled noise")
         form_case(ctx, form)
-    import controls_gen
     for i in range(ctx.pick(1500, 20000) * factor):
-        form_case(ctx, controls_gen.attr_form(rng, big=not ctx.quick()), family="attributes")
+        form = controls_gen.attr_form(rng, big=not ctx.quick())
+        if rng.random() < 0.25:
+            form = controls_gen.disabled_noise(rng, form)
+            ctx.count("disabled noise")
+        form_case(ctx, form, family="attributes")
 
 
 def replay(ctx, payload, bs):
